@@ -1,17 +1,17 @@
-\* thorough: 3 nodes, 2 entries, two simultaneous leader loops, no restart
+\* quick: 2 nodes, 2 entries, separate in-channel, asynchronous HWM updates, <=2 leadership changes, no restart
 SPECIFICATION Spec
 CONSTANTS
-  Node = {n1, n2, n3}
+  Node = {n1, n2}
   MaxIdx = 2
   Multi = {2}
   BatchSz = 2
-  InCap = 0
-  AsyncHWM = FALSE
-  MaxFlips = 99
-  MaxLeaders = 2
+  InCap = 2
+  AsyncHWM = TRUE
+  MaxFlips = 2
+  MaxLeaders = 1
   MaxRestarts = 0
   MaxSnaps = 0
-  MaxDowns = 99
+  MaxDowns = 0
   OneGroupPerEntry = TRUE
   LabelEveryGroup = TRUE
   KeyByHighest = TRUE
